@@ -15,7 +15,9 @@ import random
 from .. import tablekit as tk
 
 POOL = [("a", "int"), ("b", "flt"), ("s", "str"), ("k", "bool"), ("t", "time"), ("tracked_since", "flt"),
-        ("n2", "int"), ("untracked", "bool"), ("w", "str")]
+        ("n2", "int"), ("untracked", "bool"), ("w", "str"), ("c", "cat"), ("c2", "cat")]
+ALL_DTYPES = ["int", "flt", "str", "bool", "time", "cat", "obj", "i32", "f32"]      # what an update may carry
+IKINDS = ["int64", "int64", "range", "int32"]
 BAD_KINDS = ["foreign", "unknownrow", "newcol", "dtype", "unnamed", "nocols", "type"]
 
 
@@ -36,19 +38,27 @@ class Gen:
         return self.views[vid] or self.table_cols()
 
     def rows(self, lo=0):
+        """labels an update / read addresses: none, one, a few, all - shuffled, reversed or sorted"""
         if self.n == 0:
             return []
-        k = self.rng.choice([0, 1, 1, 2, self.n, self.rng.randint(lo, self.n)])
-        return self.rng.sample(range(self.n), min(k, self.n))
+        rng = self.rng
+        k = rng.choice([0, 1, 1, 2, self.n, self.n, rng.randint(lo, self.n)])
+        rows = rng.sample(range(self.n), min(k, self.n))
+        r = rng.random()
+        if r < 0.2:
+            rows = sorted(rows, reverse=True)
+        elif r < 0.4:
+            rows = sorted(rows)
+        return rows
 
     def good_update(self, vid, rows=None):
         rng = self.rng
-        cols = [c for c in self.vcols(vid) if c in self.dtypes]
+        cols = list(dict.fromkeys(c for c in self.vcols(vid) if c in self.dtypes))
         if not cols:
             return None
         ucols = rng.sample(cols, rng.randint(1, len(cols)))
         rows = self.rows() if rows is None else rows
-        spec = {"a": "upd", "view": vid, "form": "D", "rows": rows,
+        spec = {"a": "upd", "view": vid, "form": "D", "rows": rows, "ikind": rng.choice(IKINDS),
                 "cols": [[c, self.dtypes[c], tk.value_tokens(self.dtypes[c], rng, len(rows))] for c in ucols],
                 "mutate": rng.random() < 0.3}
         if len(ucols) == 1 and rng.random() < 0.5:
@@ -56,6 +66,64 @@ class Gen:
             if len(self.vcols(vid)) == 1 and rng.random() < 0.6:
                 spec["cols"][0][0] = None
         return spec
+
+    def read(self, vid, qcols):
+        """a read with every kind of index: empty, everybody, everybody permuted / reversed, a subset, repeated labels,
+        a label that does not exist; int64 / RangeIndex / int32 / default-empty index objects; every call form"""
+        rng, n = self.rng, self.n
+        r = rng.random()
+        if n == 0 or r < 0.08:
+            idx = []
+        elif r < 0.25:
+            idx = list(range(n))
+        elif r < 0.33:
+            idx = list(range(n))[::-1]
+        elif r < 0.52:
+            idx = rng.sample(range(n), n)
+        elif r < 0.82:
+            idx = rng.sample(range(n), rng.randint(1, n))
+            if rng.random() < 0.3:
+                idx.sort()                                                        # non-contiguous, increasing
+        elif r < 0.92:
+            idx = [rng.randrange(n) for _ in range(rng.randint(2, 4))]            # repeated labels
+        else:
+            idx = rng.sample(range(n), rng.randint(0, n)) + [n + rng.choice([0, 3])]    # a label that does not exist
+            rng.shuffle(idx)
+        q = ["T"] if rng.random() < 0.55 else tk.random_pred(rng, qcols + ([("tracked", "bool")] if rng.random() < 0.3 else []))
+        return {"a": "get", "view": vid, "idx": idx, "q": q, "mutate": rng.random() < 0.5,
+                "ikind": rng.choice(IKINDS + ["obj-empty"]), "noq": rng.random() < 0.5, "kw": rng.random() < 0.2}
+
+    def inside(self, p, qcols, initial=False):
+        """what an initializer may do besides writing: read through any view (its own or another component's, also one whose
+        columns do not all exist yet), ask for a sub-view, ask for a new view (allowed while the initial population is
+        created), look at the whole population"""
+        rng, out = self.rng, []
+        while rng.random() < p:
+            p *= 0.6
+            r = rng.random()
+            whole = [v for v, c in self.views.items() if not c]
+            if r < 0.55:
+                out.append(self.read(rng.choice(whole) if whole and rng.random() < 0.5 else rng.choice(list(self.views)), qcols))
+            elif r < 0.75:
+                parents = [v for v, c in self.views.items() if c]
+                pv = rng.choice(parents)
+                pc = self.views[pv]
+                sc = rng.sample(pc, rng.randint(1, len(pc))) if rng.random() < 0.85 else rng.choice([[], pc + ["a2"]])
+                out.append({"a": "sub", "id": self.next_id, "parent": pv, "cols": sc, "as_str": len(sc) == 1 and rng.random() < 0.3})
+                if sc and all(c in pc for c in sc):
+                    self.views[self.next_id] = sc
+                self.next_id += 1
+            elif r < 0.9 and initial:
+                names = [c for c, _ in self.cols]
+                vc = [] if rng.random() < 0.3 else rng.sample(names + ["tracked"], rng.randint(1, len(names)))
+                out.append({"a": "view", "id": self.next_id, "cols": vc, "as_str": len(vc) == 1 and rng.random() < 0.3,
+                            "q": ["T"] if rng.random() < 0.6 else tk.random_pred(rng, qcols)})
+                self.views[self.next_id] = vc
+                self.next_id += 1
+            else:
+                out.append({"a": "pop", "untracked": rng.random() < 0.5, "via": rng.choice(["sim", "manager", "default"]),
+                            "mutate": rng.random() < 0.5})
+        return out
 
     def bad_update(self, vid, kind):
         """a rejected update of the given kind, in multi-column form whenever the view allows it"""
@@ -97,7 +165,7 @@ class Gen:
                 return None
             j = rng.randrange(len(base["cols"]))
             c = base["cols"][j]
-            dt = rng.choice([d for d in ["int", "flt", "str", "bool", "time"] if d != c[1]])
+            dt = rng.choice([d for d in ALL_DTYPES if d != c[1]])
             base["cols"][j] = [c[0], dt, tk.value_tokens(dt, rng, len(base["rows"]), allow_null=False)]
             if len(base["cols"]) == 1:                       # make it multi-column when possible
                 more = [x for x in vc if x in self.dtypes and x != c[0]]
@@ -113,6 +181,7 @@ class Gen:
             base["cols"] = []
         elif kind == "type":
             base["form"] = "X"
+            base["xkind"] = rng.choice(["dict", "list", "tuple", "ndarray", "none", "scalar"])
         return base
 
     def fill(self, labels, view=1, cols=None, mode="full"):
@@ -128,8 +197,10 @@ class Gen:
             rows = list(labels)
             if rng.random() < 0.4:
                 rng.shuffle(rows)
-            spec = {"a": "upd", "view": view, "form": "D", "rows": rows, "catch": False,
+            spec = {"a": "upd", "view": view, "form": "D", "rows": rows, "catch": False, "ikind": rng.choice(IKINDS),
                     "cols": [[c, self.dtypes[c], tk.value_tokens(self.dtypes[c], rng, len(rows))] for c in g]}
+            if len(g) == 1 and rng.random() < 0.3:
+                spec["form"] = "S"
             acts.append(spec)
         if mode == "wrongdtype":          # ints for a float column at a birth
             for spec in acts:
@@ -140,7 +211,7 @@ class Gen:
                         return acts
         if mode == "partial" and labels:  # only nullable columns are left partly unfilled
             for spec in acts:
-                if all(c[1] in ("flt", "str", "time") for c in spec["cols"]) and len(spec["rows"]) > 1:
+                if all(c[1] in ("flt", "str", "time", "cat") for c in spec["cols"]) and len(spec["rows"]) > 1:
                     drop = rng.randrange(len(spec["rows"]))
                     spec["rows"].pop(drop)
                     for c in spec["cols"]:
@@ -159,7 +230,7 @@ class C11(tk.TableProp):
                "that frames handed out earlier are copies lives in the runtime and is explored by the harness (held frames "
                "are re-read after later writes); cross-dtype writes while simulants are being added are covered only for the "
                "two promotions made by reindex (float64->int64, object->bool)")
-    n_quick = 260
+    n_quick = 220
     n_thorough = 4000
     rule = ("case = a table of 2-5 mixed-dtype columns x 0-12 rows, 2-6 views (column subsets, with/without tracked, full, "
             "with a not-yet-existing column, sub-views) and 6-16 ops; run under 3 hash seeds; distinct by case hash; "
@@ -171,41 +242,72 @@ class C11(tk.TableProp):
         rng = random.Random("C11-boundary")
         for n0 in (0, 1, 2, 5):
             for j in range(3):
-                out.append(self._gen(rng, "quick", n0=n0, every_bad=True))
+                out.append(self._gen(rng, "quick", n0=n0, every_bad=True, late=(j == 2)))
         out.append(self._gen(rng, "quick", n0=3, wrongdtype=True))
+        out.append(self._gen(rng, "quick", n0=2, ncols=1, every_bad=True))
+        out.append(self._gen(rng, "quick", n0=4, reg="component", late=True))
         return out
 
     def generate(self, rng, i, tier):
         return self._gen(rng, tier)
 
-    def _gen(self, rng, tier, n0=None, every_bad=False, wrongdtype=None):
+    def _gen(self, rng, tier, n0=None, every_bad=False, wrongdtype=None, late=None, ncols=None, reg=None):
         big = tier == "thorough"
-        ncols = rng.randint(2, 5)
+        ncols = rng.randint(2, 5) if ncols is None else ncols
         cols = rng.sample(POOL, ncols)
         if not any(d == "flt" for _, d in cols):
             cols[0] = ("b", "flt")
         n0 = rng.choice([0, 1, 2, 3, 4, 5, 6, 8, 12] + ([20, 30] if big else [])) if n0 is None else n0
-        g = Gen(rng, cols, n0)
+        # a second component whose initializer runs after pop's and creates one more column; it writes through its own
+        # view or through a view that POP obtained (a handle obtained by one component, used by another)
+        late = (("late_c", rng.choice(["int", "flt", "str", "bool", "cat"])) if (rng.random() < 0.3 if late is None else late) else None)
+        g = Gen(rng, cols + ([late] if late else []), n0)
         names = [c for c, _ in cols]
-        views = [{"id": 1, "cols": names, "q": ["T"]}]
+        allnames = names + (["late_c"] if late else [])
+        reg = (rng.choice(["builder", "builder", "builder", "component"]) if reg is None else reg)
+        views = [{"id": 1, "cols": names, "q": ["T"], "noq": rng.random() < 0.5}]
         g.views[1] = names
         g.views[0] = ["tracked"]
+        if late:
+            g.views[100] = ["late_c"]
         qcols = cols + [("tracked", "bool")]
-        for _ in range(rng.randint(2, 5)):
-            r = rng.random()
-            if r < 0.15:
-                vc = []
-            else:
-                vc = rng.sample(names, rng.randint(1, len(names)))
-                if rng.random() < 0.3:
-                    vc.insert(rng.randint(0, len(vc)), "tracked")
-                if rng.random() < 0.15:
-                    vc.append("zz")
-            q = ["T"] if rng.random() < 0.5 else tk.random_pred(rng, qcols if rng.random() < 0.3 else cols)
-            views.append({"id": g.next_id, "cols": vc, "q": q})
+        if reg == "component":          # the view a Component gets by declaring columns_created / columns_required / a query
+            req = rng.choice([[], ["tracked"], None])
+            vc = [] if req == [] else names + (req or [])
+            views.append({"id": g.next_id, "auto": True, "cols": vc, "required": req,
+                          "q": ["T"] if rng.random() < 0.6 else tk.random_pred(rng, cols)})
             g.views[g.next_id] = vc
             g.next_id += 1
-        init = {"pop": g.fill(list(range(n0)))}
+        for _ in range(rng.randint(2, 5)):
+            r = rng.random()
+            if r < 0.18:
+                vc = []
+            else:
+                vc = rng.sample(allnames, rng.randint(1, len(allnames)))
+                if rng.random() < 0.3:
+                    vc.insert(rng.randint(0, len(vc)), "tracked")
+                if rng.random() < 0.25:
+                    vc.append("zz")
+            q = ["T"] if rng.random() < 0.5 else tk.random_pred(rng, qcols if rng.random() < 0.3 else cols)
+            views.append({"id": g.next_id, "cols": vc, "q": q, "as_str": len(vc) == 1 and rng.random() < 0.3, "noq": rng.random() < 0.5})
+            g.views[g.next_id] = vc
+            g.next_id += 1
+        labels0 = list(range(n0))
+        init = {"pop": g.inside(0.35, cols, True) + g.fill(labels0, view=1, cols=names) + g.inside(0.35, cols, True)}
+        if late:
+            init["late"] = g.inside(0.2, cols, True) + g.fill(labels0, view=100, cols=["late_c"]) + g.inside(0.2, cols, True)
+
+        def fills(labels, mode="full"):
+            """at a birth the owners may also write through somebody else's handle: a whole-table view, or any explicit view
+            that has all the columns"""
+            def handle(own, need):
+                cands = [v for v, c in g.views.items() if v != 0 and (not c or all(x in c for x in need))]
+                return rng.choice(cands) if cands and rng.random() < 0.35 else own
+            f = {"pop": g.inside(0.15, cols) + g.fill(labels, view=handle(1, names), cols=names, mode=mode)}
+            if late:
+                f["late"] = g.fill(labels, view=handle(100, ["late_c"]), cols=["late_c"]) + g.inside(0.15, cols)
+            return f
+
         ops = []
         bad_todo = list(BAD_KINDS) if every_bad else []
         nops = rng.randint(6, 16) + (len(bad_todo) if every_bad else 0)
@@ -217,30 +319,36 @@ class C11(tk.TableProp):
                 kind = bad_todo.pop()
                 spec = None
                 for v in rng.sample(list(g.views), len(g.views)):
+                    if kind == "newcol" and "zz" not in g.vcols(v):
+                        continue
                     spec = g.bad_update(v, kind)
                     if spec:
                         break
                 if spec:
                     ops.append(spec)
-            elif r < 0.32:
+            elif r < 0.30:
                 spec = g.good_update(vid)
                 if spec:
                     ops.append(spec)
-            elif r < 0.56:
-                spec = g.bad_update(vid, rng.choice(BAD_KINDS))
+            elif r < 0.53:
+                kind = rng.choice(BAD_KINDS)
+                if kind == "newcol":
+                    zz = [v for v in g.views if "zz" in g.vcols(v)]
+                    vid = rng.choice(zz) if zz else vid
+                spec = g.bad_update(vid, kind)
                 if spec:
                     ops.append(spec)
-            elif r < 0.72:
-                idx = g.rows()
-                if rng.random() < 0.1:
-                    idx = idx + [g.n + 1]
-                ops.append({"a": "get", "view": vid, "idx": idx, "q": ["T"] if rng.random() < 0.6 else tk.random_pred(rng, cols),
+            elif r < 0.68:
+                ops.append(g.read(vid, cols))
+            elif r < 0.73:
+                ops.append({"a": "pop", "untracked": rng.random() < 0.5, "via": rng.choice(["sim", "manager", "default"]),
                             "mutate": rng.random() < 0.5})
-            elif r < 0.80:
+            elif r < 0.81:
                 k = rng.choice([0, 1, 2, 3])
                 labels = list(range(g.n, g.n + k))
-                ops.append({"a": "create", "k": k, "comp": "pop", "fills": {"pop": g.fill(labels, mode=rng.choice(["full", "full", "partial"]))}})
                 g.n += k
+                ops.append({"a": "create", "k": k, "comp": rng.choice(["pop", "late"] if late else ["pop"]),
+                            "fills": fills(labels, rng.choice(["full", "full", "partial"]))})
             elif r < 0.90:
                 pc = g.vcols(vid)
                 sc = rng.sample(pc, rng.randint(1, len(pc))) if rng.random() < 0.8 else rng.choice([[], ["nowhere"], pc + ["a2"]])
@@ -250,15 +358,19 @@ class C11(tk.TableProp):
                 g.next_id += 1
             else:
                 rows = g.rows(1)
-                ops.append({"a": "upd", "view": 0, "form": "S", "rows": rows, "mutate": False,
+                ops.append({"a": "upd", "view": 0, "form": "S", "rows": rows, "mutate": False, "ikind": rng.choice(IKINDS),
                             "cols": [[rng.choice([None, "tracked"]), "bool", [rng.choice(["b0", "b0", "b1"]) for _ in rows]]]})
         if wrongdtype and any(d == "flt" for _, d in cols):
             k = rng.randint(1, 3)
             ops.append({"a": "create", "k": k, "comp": "pop", "kind": "wrongdtype",
-                        "fills": {"pop": g.fill(list(range(g.n, g.n + k)), mode="wrongdtype")}})
+                        "fills": {"pop": g.fill(list(range(g.n, g.n + k)), view=1, cols=names, mode="wrongdtype"),
+                                  **({"late": g.fill(list(range(g.n, g.n + k)), view=100, cols=["late_c"])} if late else {})}})
             g.n += k
-        return {"comps": [{"name": "pop", "cols": [list(c) for c in cols], "views": views}], "pop": n0, "init": init,
-                "steps": 0, "ops": ops, "seeds": [1, 2, 3]}
+        comps = [{"name": "pop", "cols": [list(c) for c in cols], "views": views, "reg": reg}]
+        if late:
+            comps.append({"name": "late", "cols": [list(late)], "views": [{"id": 100, "cols": ["late_c"], "q": ["T"]}],
+                          "requires": [names[0]], "reg": rng.choice(["builder", "component"])})
+        return {"comps": comps, "pop": n0, "init": init, "steps": 0, "ops": ops, "seeds": [1, 2, 3]}
 
     # ------------------------------------------------------------------ oracle (the property itself)
     def oracle(self, case, obs):
@@ -283,8 +395,7 @@ class C11(tk.TableProp):
                 b = cr["before"]
                 if after["rows"][:len(b["rows"])] != b["rows"] or len(after["rows"]) != len(b["rows"]) + cr["k"]:
                     fail("create-rows", f"log {i}: rows {b['rows']} + {cr['k']} -> {after['rows']}")
-        if obs.get("held_changed"):
-            fail("held-frame-changed", f"frames returned by reads at log positions {obs['held_changed']} changed after later writes")
+        fails += tk.held_failures(obs) + tk.population_failures(obs) + tk.history_failures(case, obs)
         return fails
 
     def _check_update(self, i, e, prev, after, cr, vdefs, fail):
@@ -434,7 +545,7 @@ class C11(tk.TableProp):
         for o in obs.get("other_seeds", []):
             t.append("seed-compared")
         t += ["model-err:" + k for k in obs.get("model_errs", [])]
-        return t
+        return t + tk.form_tags(case, obs)
 
 
 PROP = C11()
